@@ -86,7 +86,11 @@ PROPS = {
         "engines": [{"binary": "yosched.tsan", "target": "build/yosched.tsan",
                      "name": "sched",
                      "quick": {"runs": 48000, "secs": 45},
-                     "thorough": {"runs": 3000000, "secs": 780}}],
+                     "thorough": {"runs": 3000000, "secs": 780}},
+                    {"binary": "yosched.tsan", "target": "build/yosched.tsan",
+                     "name": "twsched",
+                     "quick": {"runs": 16000, "secs": 30},
+                     "thorough": {"runs": 1000000, "secs": 400}}],
         "level": "exploration",
         "rule": ("each run: a world on policy A updated before the threads "
                  "start, 2-6 caller tasks with seeded scripts (calls through "
@@ -94,7 +98,11 @@ PROPS = {
                  "handler, virtual_ptr make/copy/use/drop) and one task that "
                  "loads, unloads, updates and calls policy B; a seeded "
                  "scheduler releases one real thread at a time (yield points "
-                 "between operations and, through hook H2, inside yomm2); "
+                 "between operations, through hook H2 inside yomm2, and right "
+                 "before atomic operations of instrumented code); engine "
+                 "twsched: the same with the typed world (real front-end, "
+                 "casts across multiple and virtual inheritance, stock "
+                 "std_rtti policy in 40% of runs); "
                  "distinct = distinct (schedule, registry) signature, where "
                  "the schedule signature hashes the sequence of task picks; "
                  "non-trivial = at least 2 caller tasks and more scheduler "
@@ -108,7 +116,11 @@ PROPS = {
             "they never overlap in real time; assumes TSan's shadow still "
             "holds the earlier access (runs are short)",
             "sensitivity shown with a counter added to method::resolve: "
-            "reported on the first run, minimised to two one-call tasks"],
+            "reported on the first run, minimised to two one-call tasks",
+            "atomic operations of instrumented code reach the sanitizer "
+            "runtime through __tsan_atomic* calls, which are wrapped at link "
+            "time to offer a scheduling point first; code that is not "
+            "instrumented (libstdc++.so, libc) has none", TW_NOTE],
     },
     "C17": spec([reg("C17", 96000, 40, 4000000, 780)]),
     "C18": spec([reg("C18", 40000, 40, 2000000, 500),
